@@ -120,7 +120,10 @@ func relTime(d time.Duration) string {
 		d = -d
 	}
 	var s string
-	if d%time.Second == 0 {
+	if secs := int64(d / time.Second); d%time.Second == 0 && secs >= 75 && secs%15 == 0 && secs%60 != 0 {
+		// a fractional spelling of the same duration: 90s = 1.5m, 105s = 1.75m
+		s = fmt.Sprintf("%d.%sm", secs/60, map[int64]string{15: "25", 30: "5", 45: "75"}[secs%60])
+	} else if d%time.Second == 0 {
 		s = fmt.Sprintf("%ds", int64(d/time.Second))
 	} else {
 		s = fmt.Sprintf("%dms", int64(d/time.Millisecond))
